@@ -4,7 +4,8 @@
   Props/C04File.lean + C04Toy.lean (all parts composed: `encoded_file_accepted`) and Props/C04Decoded.lean (the
   `Decoded` invariant: every decoded map's record sections are representable), Props/C04DecodedObjects.lean (the hit objects
   of decoded maps are representable up to named residuals), Props/C04DecodedPaths.lean (the shape half of `RepPath` derived
-  from `convert_path_str`: for decoded sliders `PathShapeOk` is exactly `F17Free`). All in namespace `Rosu.C04`.
+  from `convert_path_str`: for decoded sliders `PathShapeOk` is exactly `F17Free`; Props/C04DecodedPathsIeee.lean: its laws are
+  theorems of the IEEE instances). All in namespace `Rosu.C04`.
 -/
 import RosuModel.Props.C04Slider
 import RosuModel.Props.C04Timing
